@@ -109,6 +109,9 @@ def run(ctx) -> None:
     ctx.rule("R18.7", "leaving a scoped_iter block closes the real iterator on every path, whatever state a cancelled step left the "
                       "wrapper in (R08.3, shared)")
     c08.r08_3(Relabel(ctx, "R18.7"))
+    ctx.rule("R18.8", "a scoped_iter block gets the closing context whenever the iterator it uses can be closed: the neutral context "
+                      "is chosen by asking aiter(iterable), not the iterable, for aclose (R08.4, shared)")
+    c08.r08_4(Relabel(ctx, "R18.8"))
 
 
 def r18_2(ctx) -> None:
@@ -162,6 +165,8 @@ def r18_4(ctx) -> None:
     # a cancellation arriving while enter_context is suspended in the manager's enter must not leave an exit
     # registered for a context that was never entered (R14.4's table, shared)
     c14.r14_4(_Relabel(ctx, "R18.4"))
+    # an exit registered by an exit while the stack unwinds from a cancelled block has run when the unwind is over (R14.12, shared)
+    c14.r14_12(_Relabel(ctx, "R18.4"), end)
 
 
 def r18_6(ctx) -> None:
